@@ -189,6 +189,14 @@ def stmt_S(kind, rnd, names, T, depth=0):
                 for _ in range(n)]
         els = [stmt_S("rel", rnd, names, T, 1)] if rnd.random() < 0.6 else []
         return {"k": "if", "arms": arms, "els": els}
+    if kind == "ifchain":
+        # a long if / else_if chain selected by one field, every arm constraining another field differently
+        sel = rnd.choice(names)
+        tgt = rnd.choice([n for n in names if n != sel] or names)
+        n = rnd.randint(4, 5)
+        arms = [{"c": B("eq", F(sel), lit(i)), "body": [E(B("eq", F(tgt), lit((i * 3 + 1) % 4)))]} for i in range(n)]
+        els = [E(B("ne", F(tgt), lit(0)))] if rnd.random() < 0.6 else []
+        return {"k": "if", "arms": arms, "els": els}
     if kind == "ifnest":
         inner = stmt_S("if", rnd, names, T, 1)
         return {"k": "if", "arms": [{"c": rel_atom(rnd, names), "body": [inner]}], "els": [stmt_S("rel", rnd, names, T, 1)]}
@@ -215,7 +223,7 @@ def stmt_S(kind, rnd, names, T, depth=0):
     raise ValueError(kind)
 
 
-S_KINDS = ["rel", "andor", "notrel", "if", "ifnest", "imp", "in", "uniq", "part", "bit"]
+S_KINDS = ["rel", "andor", "notrel", "if", "ifnest", "imp", "in", "uniq", "part", "bit", "ifchain"]
 
 
 def family_S(tier, seed, per_kind=None):
@@ -360,4 +368,41 @@ def family_D(tier, seed, per_kind=None):
             ops.append({"op": "call", "call": wcall([E(B("and", B("lt", F("a"), F("b")), B("lt", F("b"), F("a"))))])})
             ops.append({"op": "call", "call": mcall()})
             out.append({"id": "D/%s/%d" % (kind, t), "world": world, "ops": ops, "tags": tags_of(body, fields)})
+    return out
+
+
+# ------------------------------------------------------------------------------------------
+# family Q: enum fields (class members and free-standing, declared random or not)
+# ------------------------------------------------------------------------------------------
+def efld(name, values, rand=True, init=None):
+    return {"name": name, "kind": "enum", "values": values, "rand": rand, "init": values[0] if init is None else init}
+
+
+def family_Q(tier, seed, n=None):
+    out = []
+    n = n or (10 if tier == "quick" else 120)
+    for t in range(n):
+        rnd = random.Random(3131 * 100003 + t + (0 if t < n // 2 else seed * 7))
+        vals = rnd.choice([[0, 1, 2, 3], [10, 20, 30, 77], [-2, 5, 9], [1, 2, 4, 8, 16]])
+        fields = [efld("e", vals), efld("f", vals, rand=rnd.random() < 0.6, init=rnd.choice(vals)), fld("a", 2, False)]
+        body = [rnd.choice([E(B("ne", F("e"), lit(rnd.choice(vals)))), E(B("ne", F("e"), F("f"))),
+                            E({"k": "in", "e": F("e"), "items": [{"k": "v", "e": lit(v)} for v in rnd.sample(vals, 2)], "neg": rnd.random() < 0.5}),
+                            {"k": "if", "arms": [{"c": B("eq", F("e"), lit(vals[0])), "body": [E(B("eq", F("a"), lit(1)))]}],
+                             "els": [E(B("ne", F("a"), lit(1)))]}])]
+        world = one_class_world(fields, body)
+        fe = {"id": "fe", "kind": "enum", "values": vals, "rand": rnd.random() < 0.5, "init": rnd.choice(vals)}
+        fg = {"id": "fg", "kind": "enum", "values": vals, "rand": True, "init": vals[0]}
+        world["population"] += [fe, fg]
+        ops = [{"op": "construct", "o": "o1"}, {"op": "construct", "o": "fe"}, {"op": "construct", "o": "fg"}]
+        ops += [{"op": "call", "call": mcall()}, {"op": "call", "call": mcall()},
+                {"op": "probe", "call": wcall(), "paths": ["o1.e", "o1.a"] + (["o1.f"] if fields[1]["rand"] else [])}]
+        # free-standing calls: the roots are random for the call whatever their declaration
+        ne = rnd.choice(vals)
+        ops += [{"op": "call", "call": {"kind": "free_with", "roots": ["fe", "fg"], "owner": "",
+                                        "inline": [E(B("ne", F("fe"), lit(ne))), E(B("ne", F("fe"), F("fg")))]}}
+                for _ in range(6)]
+        ops += [{"op": "call", "call": {"kind": "free", "roots": ["fe"], "owner": "", "inline": []}} for _ in range(2)]
+        ops += [{"op": "call", "call": {"kind": "free_with", "roots": ["fg"], "owner": "", "inline": [E(B("ne", F("fg"), F("fe")))]}}
+                for _ in range(3)]
+        out.append({"id": "Q/%d" % t, "world": world, "ops": ops, "tags": ["enum"]})
     return out
